@@ -180,6 +180,7 @@ def parseQuery (cfg : List (List String)) : Option (Query Float) := do
   let mut plain : Option (Pred Float) := none
   let mut anaCmp : Option (Option (Cmp × Float)) := none
   let mut wfield : Option (Field Float) := none
+  let mut extra : List (Field Float × Option (Cmp × Float)) := []
   for l in cfg do
     match l with
     | ["cap", n] => cap ← n.toInt?
@@ -188,12 +189,13 @@ def parseQuery (cfg : List (List String)) : Option (Query Float) := do
       plain ← predOfTok p
       if a ≠ "-" then anaCmp := some (← parseAnaCmp a)
     | "wfield" :: rest => wfield := some (← parseField rest)
+    | "wfield2" :: a :: rest => extra := extra ++ [(← parseField rest, ← parseAnaCmp a)]
     | _ => pure ()
   let ana ← (match anaCmp, wfield with
-    | some c, some f => some (some (f, c))
-    | none, none => some none
+    | some c, some f => some [(f, c)]
+    | none, none => some []
     | _, _ => none)
-  some { cap := cap, fields := fields, wher := { plain := plain, ana := ana } }
+  some { cap := cap, fields := fields, wher := { plain := plain, ana := ana ++ extra } }
 
 def parseRow : List String → Option (String × Row Float)
   | ["row", id, k1, k2, v, u, g] => do
@@ -285,6 +287,7 @@ def run (c : Case) : CaseOut := Id.run do
         | [a, b] => if a.drop 1 != b.drop 1 then spec := "fail:sync-async-differ"
         | _ => spec := "fail:missing-observation"
     if unconstrained > 0 then tags := "beyond-cap" :: tags
+    if q.wher.ana.length > 1 then tags := "where-two-analytic-calls" :: tags
     if q.uses then tags := "where-analytic" :: tags
     else if q.wher.plain.isSome then tags := "where-plain" :: tags
     else tags := "where-none" :: tags
